@@ -135,7 +135,7 @@ def step (s : St) (toks : List String) : St × String :=
       -- async mode: once the writer thread is gone the record is lost (`Send` error, swallowed)
       if s.asyncDead then (s, "ok") else apply s (.write b) now {}
     | _, _ => (s, "bad-op")
-  | ["LFLUSH"] => let (s', _) := apply s .flush 0 {}; (s', "ok")
+  | ["LFLUSH"] | ["LFLUSHC"] => let (s', _) := apply s .flush 0 {}; (s', "ok")   -- LFLUSHC: under concurrent logging
   | ["LSHUT"] | ["LSHUT2"] =>      -- LSHUT2: two overlapping shutdown() calls: one shutdown
     let (s', _) := apply s .shutdown 0 {}
     ({ s' with asyncDead := s.asyncDead || s.asyncMode }, "ok")
